@@ -8,7 +8,9 @@
 //!    evaluation order (arguments before the call that takes them), the
 //!    iterator adaptors of the loops over arguments / fields / arms
 //!    (`arguments.iter()`, `.rev()`, `.map`), the `Value::…` / `Expr::BinOp`
-//!    constructions, and markers for `if` / `for` / `match` / closures.
+//!    constructions, and markers for `if` / `for` / `match` / closures. Arguments that
+//!    are plain local names are written `v0, v1, …` in order of first use, so a
+//!    consistent renaming of a local variable leaves the skeleton unchanged.
 //!    `Props/C08.lean` pins every skeleton to the sequence the structured
 //!    lowering model (`Model/LowerS.lean`) implements: a regrouped, reversed,
 //!    dropped or duplicated step changes the generated definition and the
@@ -34,6 +36,36 @@ fn toks(t: &impl ToTokens) -> String {
 #[derive(Default)]
 struct Skel {
     out: Vec<String>,
+    /// local names in order of first use as a whole argument: a consistent renaming of a
+    /// local variable does not change the skeleton, a regrouping does
+    locals: Vec<String>,
+}
+
+impl Skel {
+    /// An argument that is a plain local name (`l`, `&l_ty`) is written as `v<i>` / `&v<i>`
+    /// (index of first use in this function); anything else as its tokens.
+    fn arg(&mut self, a: &syn::Expr) -> String {
+        let t = toks(a);
+        let (amp, name) = match t.strip_prefix('&') {
+            Some(r) => ("&", r),
+            None => ("", t.as_str()),
+        };
+        let plain = !name.is_empty()
+            && name != "self"
+            && name.chars().next().map(|c| c.is_ascii_lowercase() || c == '_').unwrap_or(false)
+            && name.chars().all(|c| c.is_ascii_lowercase() || c.is_ascii_digit() || c == '_');
+        if !plain {
+            return t;
+        }
+        let i = match self.locals.iter().position(|n| n == name) {
+            Some(i) => i,
+            None => {
+                self.locals.push(name.to_string());
+                self.locals.len() - 1
+            }
+        };
+        format!("{amp}v{i}")
+    }
 }
 
 impl<'ast> Visit<'ast> for Skel {
@@ -50,7 +82,7 @@ impl<'ast> Visit<'ast> for Skel {
             return;
         }
         if recv == "self" {
-            let args: Vec<String> = m.args.iter().map(|a| toks(a)).collect();
+            let args: Vec<String> = m.args.iter().map(|a| self.arg(a)).collect();
             self.out.push(format!("self.{name}({})", args.join(",")));
         } else if ITER_METHODS.contains(&name.as_str()) {
             let r = if recv.len() > 40 { "…".to_string() } else { recv };
@@ -69,13 +101,14 @@ impl<'ast> Visit<'ast> for Skel {
         syn::visit::visit_expr_struct(self, s);
         let p = toks(&s.path);
         if p.starts_with("Value::") {
-            let fields: Vec<String> = s.fields.iter().map(|f| toks(f)).collect();
+            let fields: Vec<String> = s.fields.iter().map(|f| format!("{}:{}", toks(&f.member), self.arg(&f.expr))).collect();
             self.out.push(format!("{p}{{{}}}", fields.join(",")));
         }
     }
     fn visit_expr_if(&mut self, i: &'ast syn::ExprIf) {
         self.visit_expr(&i.cond);
-        self.out.push(format!("if({})", toks(&i.cond)));
+        // the condition's text is left out (it names locals); its calls were recorded above
+        self.out.push("if".into());
         self.visit_block(&i.then_branch);
         if let Some((_, e)) = &i.else_branch {
             self.out.push("else".into());
@@ -89,7 +122,7 @@ impl<'ast> Visit<'ast> for Skel {
             return;
         }
         self.visit_expr(&f.expr);
-        self.out.push(format!("for({}in{})", toks(&f.pat), toks(&f.expr)));
+        self.out.push(format!("for({})", toks(&f.expr)));
         self.visit_block(&f.body);
         self.out.push("endfor".into());
     }
